@@ -289,6 +289,7 @@ EXTRA_TEXT = {
     "C10": "For index operations 'unchanged' also means: same digest as an untouched twin after a fixed continuation (other Stream Flags, padding, three appends).",
     "C12": "One more lzma_filters_update (whole chain or lc/lp/pb) is attempted at an arbitrary lzma_code call boundary under 1-3 byte output, also while a header is being copied out: accepted or refused, everything still has to decode.",
     "C13": "Decoded indexes join the operation history (a third), file-info results take further appends, files may contain Block-less Streams; xz --list --robot -vv figures are compared with an independent parser, including Stream Padding around the 8 KiB read window and Streams of thousands of Blocks.",
+    "C15": "A third of the cases also put the filter under test behind or in front of another filter (delta or x86) and compare the filtered bytes with the composed reference transforms; the ends of the delta distance range are drawn more often.",
     "C16": "A fifth of the cases run on a reused handle whose first life decoded the file before variation or a contrast file with other header bits.",
     "C18": "12% of the inputs are valid files whose compressed size is a multiple of the 8 KiB read buffer +- delta."
 }
